@@ -10,8 +10,8 @@ collections (check "coll")
     aoh : every Array-of-Hashes of length 1..L over the members {a: v1},{a: v2},{a: v3} (present,
           repeated), {b: 1} (attribute absent), {a: null}; per value kind
     hoh : the same member sequences as values of a hash k0..k4
-    each at the document root and nested under a key; x keyword x inversion x parameter
-    present/absent.
+    each at the document root and nested under a key (quick: nested up to length 3); x keyword x
+    inversion x parameter present/absent.
       max/min   : exactly the members whose value/attribute is greatest/least; inverted exactly
                   the others (order not prescribed)
       unique    : members whose value occurs once; inverted those occurring more than once
@@ -27,8 +27,8 @@ collections (check "coll")
       - parameter given on a list of scalars / missing on hashes, inverted distinct(), inverted
         name()/parent(), name(x), parent(0): YAMLPathException or whatever the code does.
 parent / name (check "tree")
-    every node of every document of rtc.gen.trees(N <= 6 (quick 5), depth <= 4, keys {a,b},
-    scalars {1,x}) addressed by its explicit path; `[parent(n)]` for n = absent, 1..depth+2:
+    every node of every document of rtc.gen.trees(N <= 6 (quick: N <= 4 and 800 sampled with N = 5),
+    depth <= 4, keys {a,b}, scalars {1,x}) addressed by its explicit path; `[parent(n)]` for n = absent, 1..depth+2:
     the n-th ancestor (node, and the coordinates under which the ancestor itself is held), and a
     YAMLPathException when n exceeds the depth; `[name()]`: the key or index holding the node.
 
@@ -199,7 +199,11 @@ def check_coll(col, doc_text, shape, coll_path, kw, param, data=None):
             if nulls:
                 k = "%s-wrong-extreme-when-a-null-attribute-is-present@%s" % (key, shape)
             elif rs < g:
-                k = "%s-tie-member-missed@%s" % (key, shape)
+                texts = set(str(val[repr(r)]) for r in G)
+                if len(texts) > 1:      # equal values written differently (0.0 / -0.0)
+                    k = "%s-tie-between-equal-values-spelled-differently-missed@%s" % (key, shape)
+                else:
+                    k = "%s-tie-member-missed@%s" % (key, shape)
             elif rs - g:
                 k = "%s-non-extreme-member-returned@%s" % (key, shape)
             else:
@@ -318,8 +322,8 @@ def member_alphabet(kind):
     return [{ATTR: vs[0]}, {ATTR: vs[1]}, {ATTR: vs[2]}, {OTHER: 1}, {ATTR: None}]
 
 
-def coll_docs(max_len):
-    """-> [(doc_text, shape, coll_path)]"""
+def coll_docs(max_len, nested_max_len):
+    """-> [(doc_text, shape, coll_path)]; placed at the root, and (up to nested_max_len members) under a key."""
     docs = []
     for kind, vs in VALUE_KINDS.items():
         for n in range(1, max_len + 1):
@@ -337,23 +341,33 @@ def coll_docs(max_len):
     out = []
     for t, shape in docs:
         out.append((gen.to_yaml(t), shape, []))
-        out.append((gen.to_yaml({"k": t, "z": 1}), shape, ["k"]))
+        if len(t) <= nested_max_len:
+            out.append((gen.to_yaml({"k": t, "z": 1}), shape, ["k"]))
     return out
 
 
-def _coll_chunk(items, _unused=None):
+def _coll_chunk(items, full=True):
+    """`full` (thorough): every combination on every collection.  Otherwise the combinations whose outcome
+    does not depend on the members (parameter misuse, has_child without / with an unknown parameter) and the
+    per-member has_child queries beyond the first and last member are run on collections of <= 2 members only."""
     col = Collector()
     for doc_text, shape, coll_path in items:
         data = gen.load(doc_text)
+        coll = navigate(data, coll_path)
+        members = members_of(coll, shape)
+        small = full or len(members) <= 2
+        defined_param = None if shape == "seq" else ATTR
         for kw in ("max", "min", "unique", "distinct"):
-            for param in (None, ATTR):
+            for param in ((None, ATTR) if small else (defined_param,)):
                 check_coll(col, doc_text, shape, coll_path, kw, param, data)
         if shape in ("aoh", "hoh"):
             vias = (["direct", "star"] if shape == "aoh" else ["star"])
-            coll = navigate(data, coll_path)
-            vias += [["member", r] for r, _ in members_of(coll, shape)]
+            refs = [r for r, _ in members]
+            if not small:
+                refs = [refs[0], refs[-1]]
+            vias += [["member", r] for r in refs]
             for via in vias:
-                for param in (ATTR, OTHER, "zz", None):
+                for param in ((ATTR, OTHER, "zz", None) if small else (ATTR, OTHER)):
                     if param is None and via != vias[0]:
                         continue
                     check_has_child(col, doc_text, shape, coll_path, via, param, data)
@@ -482,9 +496,14 @@ def _tree_chunk(items, _unused=None):
     return col.result(internal=True)
 
 
-def tree_docs(max_nodes):
-    return [gen.to_yaml(t) for t in gen.trees(max_nodes, 4, keys=("a", "b"), scalars=(1, "x"), sets=False)
-            if isinstance(t, (dict, list))]
+def tree_docs(max_nodes, sample_size=0, rng=None):
+    """Every container-rooted tree with <= max_nodes nodes, plus a seeded sample of those with max_nodes+1."""
+    kw = dict(keys=("a", "b"), scalars=(1, "x"), sets=False)
+    ts = [t for t in gen.trees(max_nodes, 4, **kw) if isinstance(t, (dict, list))]
+    if sample_size:
+        bigger = [t for t in gen.trees(max_nodes + 1, 4, **kw) if gen.size(t) > max_nodes]
+        ts += rng.sample(bigger, min(sample_size, len(bigger)))
+    return [gen.to_yaml(t) for t in ts]
 
 
 # ---------------------------------------------------------------------------------------
@@ -492,31 +511,37 @@ def run(tier="quick", seed=0, jobs=None):
     thorough = tier == "thorough"
     col = Collector()
     max_len = 5 if thorough else 4
-    max_nodes = 6 if thorough else 5
+    max_nodes = 6 if thorough else 4
+    tree_sample = 0 if thorough else 800
     rng = random.Random("c13-%s" % seed)
-    cdocs = coll_docs(max_len)
+    nested_max_len = 5 if thorough else 3
+    cdocs = coll_docs(max_len, nested_max_len)
     rng.shuffle(cdocs)
-    for r in pmap_chunks(_coll_chunk, cdocs, jobs, chunk=max(10, len(cdocs) // 320)):
+    for r in pmap_chunks(_coll_chunk, cdocs, jobs, chunk=max(10, len(cdocs) // 320), extra=(thorough,)):
         col.merge(r)
     n_coll = col.evaluations
-    tdocs = tree_docs(max_nodes)
+    tdocs = tree_docs(max_nodes, tree_sample, rng)
     rng.shuffle(tdocs)
     for r in pmap_chunks(_tree_chunk, tdocs, jobs, chunk=max(10, len(tdocs) // 320)):
         col.merge(r)
     bounds = {
         "collections": {"max_length": max_len, "value_kinds": {k: list(v) for k, v in VALUE_KINDS.items()},
                         "member_alphabet": "{a: v} x 3 values, {b: 1} (absent), {a: null}", "shapes": ["seq", "aoh", "hoh"],
-                        "placements": ["root", "under key k"], "documents": len(cdocs),
+                        "placements": ["root", "under key k (length <= %d)" % nested_max_len], "documents": len(cdocs),
                         "keywords": ["max", "min", "unique", "distinct", "has_child"], "inversion": [False, True],
-                        "parameter": ["absent", "a"], "has_child_parameters": ["a", "b", "zz", "absent"], "complete": True},
-        "parent_name": {"documents": "rtc.gen.trees(N<=%d, depth<=4, keys{a,b}, scalars{1,x}) with a container root" % max_nodes,
+                        "parameter": ["absent", "a"], "has_child_parameters": ["a", "b", "zz", "absent"],
+                        "member_independent_combinations": "all collections" if thorough else "collections of <= 2 members",
+                        "complete": True},
+        "parent_name": {"documents": "every rtc.gen.trees(N<=%d, depth<=4, keys{a,b}, scalars{1,x}) with a container root + %d sampled with N=%d"
+                                     % (max_nodes, tree_sample, max_nodes + 1),
                         "n_documents": len(tdocs), "nodes": "every node, explicit path",
                         "parent_n": "absent, 0..depth+2", "name": ["plain", "inverted", "with a parameter"], "complete": True},
     }
     return col.result(
         rule=("definitional oracle == query result for [max|min|unique|distinct(a?)], [!...], has_child over every seq/AoH/hash-of-hashes "
               "of length <= %d per value kind (root and nested); [parent(n)] = n-th ancestor or YAMLPathException above the root and "
-              "[name()] = holding key/index for every node of every tree with <= %d nodes" % (max_len, max_nodes)),
+              "[name()] = holding key/index for every node of every tree with <= %d nodes (+%d sampled one node larger)"
+              % (max_len, max_nodes, tree_sample)),
         exhaustive=True, bounds=bounds,
         evaluations_by_check={"collections": n_coll, "parent_name": col.evaluations - n_coll}, tier=tier, seed=seed)
 
